@@ -366,6 +366,20 @@ def continuum(gspec, name, prof, what):
             if cls == "cyl":
                 out[("φ", "z")] = fz
         return {k: v + zero for k, v in out.items()}
+    if what == "tensor_divergence":  # (div T)_i = sum_j d_j T_ij; name = (name_i, name_j) of T's entry
+        ni, nj = name
+        out = {}
+        if (ni, nj) == ("r", "r"):
+            out["r"] = fr + (2 if cls == "sph" else 1) * f_r
+        elif (ni, nj) == ("φ", "φ"):  # spherical: T_thth = T_phph = f (symmetry precondition)
+            out["r"] = -(2 if cls == "sph" else 1) * f_r
+        elif (ni, nj) == ("z", "z"):
+            out["z"] = fz
+        elif (ni, nj) == ("r", "z"):
+            out["r"] = fz
+        elif (ni, nj) == ("z", "r"):
+            out["z"] = fr + f_r
+        return {k: v + zero for k, v in out.items()}
     raise ValueError(what)
 
 
@@ -388,18 +402,27 @@ def compare_interior(obs, want, gspec, scale, what, key, rel=0.15):
 # ---------------------------------------------------------------------------------------
 # sub-check: by_name_access
 # ---------------------------------------------------------------------------------------
+ROUTES = ["setitem_name", "setitem_index", "from_expression", "from_scalars", "data"]
+OPS = ["divergence", "vector_gradient", "gradient", "directional", "tensor_divergence"]
+TCOMPS = ["rr", "φφ", "zz", "rz", "zr"]
+
+
 @st.composite
 def by_name_cases(draw):
-    gspec = draw(curvilinear_grids())
+    # the discrete choices are derived from one wide integer (sampled_from clusters heavily,
+    # which left whole (grid class, name) combinations unvisited)
+    sel = draw(st.integers(0, 2**30))
+    h = (sel * 0x9E3779B97F4A7C15) & (2**64 - 1)  # multiplicative mixing: all bit fields vary
+
+    def pick(seq, shift):
+        return seq[(h >> shift) % len(seq)]
+
+    cls = pick(("polar", "sph", "cyl", "cyl"), 58)
+    gspec = draw(curvilinear_grids(classes=(cls,)))
     names = order_of(gspec)
-    if gspec["cls"] == "sph":
-        name = "r"
-    else:
-        name = draw(st.sampled_from(names))
+    name = "r" if cls == "sph" else pick(names, 50)
     return {"grid": gspec, "name": name, "profile": draw(profile_spec()),
-            "route": draw(st.sampled_from(["setitem_name", "setitem_index", "from_expression",
-                                           "from_scalars", "data"])),
-            "op": draw(st.sampled_from(["divergence", "vector_gradient", "gradient", "directional"])),
+            "route": pick(ROUTES, 42), "op": pick(OPS, 34), "tcomp": pick(TCOMPS, 26),
             "seed": draw(st.integers(0, 2**31))}
 
 
@@ -464,8 +487,8 @@ def check_by_name(case):
     for i in range(len(names)):
         want = f if i == k else np.zeros(grid.shape)
         if not np.allclose(v.data[i], want, rtol=1e-12, atol=1e-12 * scale):
-            raise Violation(f"{glabel}: route {case['route']} put the {name!r} component into slot {i}",
-                            key=f"by_name:{cls}:route:{case['route']}")
+            raise Violation(f"{glabel}: route {case['route']} for the single component {name!r} (slot {k} of "
+                            f"{names}): slot {i} holds unexpected data", key=f"by_name:{cls}:route:{case['route']}")
     op = case["op"]
     what = f"{glabel}: {op} of a field with single component {name!r} built via {case['route']}"
     worst = 0.0
@@ -491,6 +514,29 @@ def check_by_name(case):
             worst = max(worst, compare_interior(
                 obs[nm].data, w, gspec, scale, f"{glabel}: component {nm!r} of the gradient of a scalar",
                 key=f"by_name:{cls}:gradient:{nm}"))
+    elif op == "tensor_divergence":
+        # tensor with a single non-zero entry addressed by *names*; only entries whose divergence
+        # is convention-independent up to the documented (div T)_i = d_j T_ij
+        ni, nj = {"rr": ("r", "r"), "φφ": ("φ", "φ"), "zz": ("z", "z"), "rz": ("r", "z"),
+                  "zr": ("z", "r")}[case["tcomp"]]
+        if cls != "cyl" and "z" in (ni, nj):
+            ni = nj = "r"
+        T = pde.Tensor2Field(grid)
+        T[ni, nj] = f
+        kw = {}
+        if cls == "sph":
+            if (ni, nj) == ("φ", "φ"):
+                T["θ", "θ"] = f
+            kw["conservative"] = False  # (the conservative variant has the known finding F-C01)
+        obs = T.divergence(bc=BC, **kw)
+        want = continuum(gspec, (ni, nj), prof, "tensor_divergence")
+        for nm in names:
+            w = want.get(nm, np.zeros(grid.shape))
+            worst = max(worst, compare_interior(
+                obs[nm].data, w, gspec, scale,
+                f"{glabel}: component {nm!r} of the divergence of a tensor with single entry ({ni}, {nj})",
+                key=f"by_name:{cls}:tensor_divergence:({ni},{nj}):{nm}"))
+        name = f"{ni}{nj}"
     else:  # directional derivative e_name . grad s through the dot product
         s = pde.ScalarField(grid, f)
         e = pde.VectorField(grid)
@@ -909,7 +955,9 @@ def check_commute(case):
 @st.composite
 def axial_cases(draw):
     gspec = draw(curvilinear_grids(classes=("cyl",), n_lo=3, n_hi=10, nz_lo=2, nz_hi=8))
-    return {"grid": gspec, "c": draw(st.one_of(st.sampled_from([1.0, -2.0]), st.floats(-10, 10))),
+    return {"grid": gspec, "c": draw(st.one_of(st.sampled_from([1.0, -2.0, 0.0]),
+                                          st.tuples(st.sampled_from([-1, 1]), st.floats(1e-3, 10)).map(
+                                              lambda t: t[0] * t[1]))),
             "target": draw(target_strategy()), "route": draw(st.sampled_from(["name", "expression"]))}
 
 
